@@ -3,6 +3,13 @@
 Explorer A over (carrier x application script x closure/fault kind x engine); the fault and the
 application's gate releases are separate sources, so the explorer interleaves them at every
 position, including mid-flight (while the server still has runnable work).
+
+Where the connection's reader task is when the closure happens is a dimension of its own: waiting on
+the socket (carriers h1, h1x2, h2, ws/*: the reader notices the closure and reports it itself) or
+parked inside the protocol behind a pipelined request (carrier h1pipe: two requests in one segment,
+the first application streams / waits for its disconnect): there a failed write, a reset or a
+server-side close is the only thing that can tell the application, whose "stream" script keeps
+writing chunk after chunk (write failure at each write) and only stops on http.disconnect.
 """
 from __future__ import annotations
 
@@ -18,7 +25,8 @@ ID = "C03"
 LEVEL = "model_checking"
 TECHNIQUE = ("stateless deviation-bounded exploration (CHESS-style) of the real TCPServer/H11/H2/stream code "
              "under a virtual-time event loop and an in-memory transport; per-execution monitor")
-RULE = ("scenario = engine x carrier(h1,h2 two streams,ws/h1,ws/h2) x app script x closure kind; every placement of "
+RULE = ("scenario = engine x carrier(h1,h1 keep-alive pair,h1 pipelined pair (reader parked),h2 two streams,ws/h1,ws/h2) x "
+        "app script x closure kind; every placement of "
         "the closure event, gate releases and timer ticks within bounds (M mid-flight injections, S source "
         "preemptions); non-trivial = an app instance ran and at least one non-default choice was taken; distinct "
         "by digest of (per-instance message sequences, send outcomes, parsed client events, close instants, logs)")
@@ -28,7 +36,9 @@ ASSUMPTIONS = [
     "judged on what was queued for them",
     "only messages the reference ASGI automaton allows (given what the app itself sent) must be accepted silently",
 ]
-BOUNDS_DOC = {"quick": "M<=1 mid-flight injections, S<=2 preemptions, R=0", "thorough": "M<=2, S<=3, trio R<=1"}
+BOUNDS_DOC = {"quick": "M<=1 mid-flight injections, S<=2 preemptions, R=0 (trio keep-alive pair: M<=1,S<=1,R<=1); "
+                       "6 carriers (h1pipe: 3 scripts x 4 closure kinds) x 7 HTTP / 5 WebSocket scripts x 6 closure kinds x 2 engines",
+              "thorough": "M<=2, S<=3, trio R<=1"}
 BUDGET = {"quick": 300, "thorough": 1800}
 
 START = {"type": "http.response.start", "status": 200, "headers": [(b"content-length", b"4")]}
@@ -45,6 +55,10 @@ HTTP_APPS = {
     "late": [("recv_until_disconnect",), ("send", START), ("send", B1), ("send", B2)],
     "send_after": [("recv_body",), ("send", START), ("gate", "g1"), ("send", B1), ("recv_until_disconnect",),
                    ("send", B2)],
+    # server-sent-events style: streams chunks of an unbounded response, each behind its own gate, and stops only
+    # when told the client has gone (then completes the response: a send after closure)
+    "stream": [("send", START_CHUNKED), ("send", B1), ("gate", "g1"), ("send", B1), ("gate", "g2"), ("send", B1),
+               ("recv_until_disconnect",), ("send", B2)],
 }
 WS_APPS = {
     "session": [("recv",), ("send", {"type": "websocket.accept"}), ("gate", "g1"),
@@ -57,7 +71,19 @@ WS_APPS = {
                    ("send", {"type": "websocket.send", "text": "late"})],
 }
 FAULTS = ["none", "eof", "reset", "wfail", "terminate", "client_close"]
-CARRIERS = ["h1", "h1x2", "h2", "ws/h1", "ws/h2"]  # h1x2: a keep-alive pair, the scripted application serves the second request
+# h1x2: a keep-alive pair, the scripted application serves the second request
+# h1pipe: two requests pipelined in ONE segment, the scripted application serves the first: while it responds the
+#         connection's reader is parked inside the protocol (behind the second request), not waiting on the socket,
+#         so a closure the reader would otherwise notice and report by itself has to reach the application some
+#         other way
+CARRIERS = ["h1", "h1x2", "h1pipe", "h2", "ws/h1", "ws/h2"]
+PIPE_APPS = ("gated", "send_after", "stream")
+# Reported on the unchanged tree, awaiting triage (witness replays/C03/candidate-parked-reader-reset.json): asyncio
+# worker, the client resets the connection while the reader is parked behind the pipelined request and the
+# application is waiting in receive(): asyncio's transport closes the socket, nobody tells the protocol, the
+# application never gets http.disconnect (confirmed with real sockets).  Left out of the scenario list so that the
+# check stays quiet; remove the entries once the finding is registered.
+PENDING_FINDING: set = set()  # registered as KF-C03-reset-behind-parked-reader (known_findings.json)
 
 
 def scenarios(tier: str) -> List[Any]:
@@ -70,6 +96,12 @@ def scenarios(tier: str) -> List[Any]:
                     if fault == "client_close" and not carrier.startswith("ws") and carrier != "h2":
                         continue
                     if carrier == "h1x2" and (app not in ("gated", "early", "late") or fault in ("wfail",)):
+                        continue
+                    if app == "stream" and carrier != "h1pipe":
+                        continue
+                    if carrier == "h1pipe" and (app not in PIPE_APPS or fault == "none"):
+                        continue
+                    if (engine, carrier, app, fault) in PENDING_FINDING:
                         continue
                     out.append((engine, carrier, app, fault))
     return out
@@ -99,6 +131,14 @@ def build(params: Any) -> tuple:
         conn["carrier"] = "h1"
         conn["methods"] = [b"GET", b"POST"]
         apps = {"http:/pre": [("recv_body",), ("send", START), ("send", B1), ("send", B2)], "http:/x": HTTP_APPS[app]}
+    elif carrier == "h1pipe":
+        req = h1_request(b"POST", b"/x", body=b"hello")
+        nxt = h1_request(b"GET", b"/next")
+        client = [("data", 0, req + nxt)]
+        conn["carrier"] = "h1"
+        conn["methods"] = [b"POST", b"GET"]
+        apps = {"http:/x": HTTP_APPS[app], "http:/next": [("recv_body",), ("send", START), ("send", B1), ("send", B2),
+                                                          ("recv_until_disconnect",)]}
     elif carrier == "h2":
         conn.update(tls=True, alpn="h2")
         client = [("cmd", 0, "preface"),
@@ -150,6 +190,8 @@ def oracle(w: Any, params: Any) -> List[dict]:
         if inst.type not in ("http", "websocket"):
             continue
         tag = f"{carrier}:{inst.type}"
+        # access records are a matter of one request's stream: keyed by the wire protocol
+        wtag = f"{'h1' if carrier == 'h1pipe' else carrier}:{inst.type}"
         msgs = inst.delivered()
         disc = [i for i, m in enumerate(msgs) if m["type"].endswith("disconnect")]
         if len(disc) > 1:
@@ -159,7 +201,8 @@ def oracle(w: Any, params: Any) -> List[dict]:
         # An instance that is still running when its connection is gone must have been sent the disconnect
         # (an instance that already returned cannot observe it, so nothing is demanded for those).
         if inst.outcome == "running" and rec.closed_at is not None and not disc:
-            out.append(V("no-disconnect", f"{tag}:{inst.outcome}", [m["type"] for m in msgs]))
+            out.append(V("no-disconnect", f"{tag}:{inst.outcome}" + (f":{fault}:{engine}" if carrier == "h1pipe" else ""),
+                         [m["type"] for m in msgs]))
         # sends of state-valid messages never raise
         model = WsSendModel() if inst.type == "websocket" else HttpSendModel(inst.scope["http_version"])
         for t0, t1, msg, outcome in inst.sends:
@@ -171,9 +214,9 @@ def oracle(w: Any, params: Any) -> List[dict]:
         # one access record per request
         n = sum(1 for a in w.access if a[5] is inst.scope)
         if n > 1:
-            out.append(V("access-log-more-than-once", f"{tag}:{n}", [(a[0], a[4]) for a in w.access if a[5] is inst.scope]))
+            out.append(V("access-log-more-than-once", f"{wtag}:{n}", [(a[0], a[4]) for a in w.access if a[5] is inst.scope]))
         if n == 0 and disc:
-            out.append(V("access-log-missing", f"{tag}", inst.outcome))
+            out.append(V("access-log-missing", f"{wtag}", inst.outcome))
     seen = {}
     for a in w.access:
         seen.setdefault(a[1], []).append(a)
